@@ -549,3 +549,5 @@ func VerifC02Generic() {
 	}
 	c02CheckOpt(g, false, false)
 }
+
+func VerifC02MultiChoice() { c01MultiChoice(true) }
